@@ -174,4 +174,34 @@ example : (run (W.init 1) [.pushStr [97], .pushStr [98], .mergeChar 40]).output 
 example : (run (W.init 4) [.pushStr [97], .pushStr [98, 98], .mergeChar 40]).output = [97, 10, 98, 98, 40] := by decide  -- `a bb` re-broken as `a⏎bb(`
 example : (run (W.init 80) [.pushStr [49], .pushStrAndBreakIf [46, 46], .pushStr [120]]).output = [49, 32, 46, 46, 120] := by decide
 
+/-! ## 5. `;` insertion -/
+
+/-- Full-strength statement: whenever the written expression ends in something a following `(`
+would call (a `)` or a prefix-expression atom), darklua's `expression_ends_with_prefix` says so
+(and `write_block` then inserts `;` before a statement starting with `(`). -/
+def semicolon_sound_full : Prop :=
+  ∀ (isPfx : Nat → Bool) (e : E),
+    endsCallable isPfx (printE e) = true → expressionEndsWithPrefix isPfx e = true
+
+/-- Witness of finding F26: `a - (b and 1)` — the tree's right edge ends in a number, the text
+ends in the `)` the printer adds around the right operand. -/
+def f26Witness : E := .bin .sub (.atom 0) (.bin .and (.atom 0) (.atom 1))
+
+theorem semicolon_sound_full_false : ¬ semicolon_sound_full := by
+  intro h
+  have := h (fun k => k == 0) f26Witness (by decide)
+  revert this
+  decide
+
+/-- Under H₃ (the written form does not end with a printer-added parenthesis) darklua's
+recursion over the tree agrees exactly with the written tokens. -/
+theorem semicolon_sound_partial (isPfx : Nat → Bool) (e : E) (h : H3 isPfx e = true) :
+    endsCallable isPfx (printE e) = expressionEndsWithPrefix isPfx e :=
+  semicolon_partial_aux isPfx e h
+
+example : H3 (fun k => k == 0) (.bin .sub (.atom 1) (.bin .mul (.atom 1) (.paren (.atom 1)))) = true ∧
+    endsCallable (fun k => k == 0) (printE (.bin .sub (.atom 1) (.bin .mul (.atom 1) (.paren (.atom 1))))) = true := by
+  decide
+example : H3 (fun k => k == 0) f26Witness = false := by decide
+
 end DarkluaModel.C02
